@@ -373,7 +373,7 @@ class Runtime(object):
         self.M = M
         apply_mutation(mutate)
         src = gen_source(M, mutate)
-        modname = 'c04gen_%s' % M['mid']
+        modname = 'c04gen_%s_%d' % (M['mid'], os.getpid())
         with open(modname + '.py', 'w') as fp:
             fp.write(src)
         sys.path.insert(0, os.getcwd())
